@@ -104,9 +104,23 @@ def run_hists(hists, flavor='plain', timeout=900, chunk=None):
     return rc, engine.parse_trace(out), err, out
 
 def pair(h, builds):
-    """[(Step, Build)] for the build steps of a history"""
-    bs = [st for st in h.steps if st.kind == 'build']
-    return list(zip(bs, builds))
+    """[(Step, Build, pre)] for the build steps of a history; pre = (log, deps) meaning right before
+    the build (the previous build's final state adjusted by droplog/dropdeps steps)"""
+    res = []; i = 0; log = {}; deps = {}
+    for st in h.steps:
+        if st.kind == 'droplog': log = {}
+        elif st.kind == 'dropdeps': deps = {}
+        elif st.kind == 'build':
+            if i >= len(builds): break
+            b = builds[i]; i += 1
+            b.pre_log, b.pre_deps = log, deps
+            res.append((st, b))
+            log, deps = b.log, b.deps
+    return res
+
+def always_dirty_phony(g):
+    """the documented always-dirty case: a phony statement without inputs (its file never exists here)"""
+    return any(e.phony and not e.manifest_ins() for e in g.edges)
 
 # ------------------------------------------------------------------ oracles
 def oracle_c01(h, st, b):
@@ -122,13 +136,14 @@ def oracle_c01(h, st, b):
         e = prod.get(n)
         if e is None or e.phony: continue
         got = b.files.get(n)
-        if got is None: bad.append('%s missing after successful build' % n)
-        elif got[1] != exp[n]: bad.append('%s has stale content' % n)
+        if got is None: bad.append(('missing', n, '%s missing after successful build' % n))
+        elif got[1] != exp[n]: bad.append(('stale', n, '%s has stale content %s' % (n, got[1][:12])))
     return bad or None
 
 def oracle_c02(h, st, b, prev_st, prev_b):
     """a repeated build right after a successful one does nothing"""
     if not getattr(st, 'repeat', False) or prev_b is None or prev_b.exit != 0: return None
+    if always_dirty_phony(st.g): return None
     if b.started or not b.uptodate:
         return ['second run after a successful build started %s (uptodate=%s)' % (b.started, b.uptodate)]
     return None
@@ -174,8 +189,8 @@ def oracle_c05(h, st, b, prev_b):
                 e = prod.get(o0)
                 ok_again = any(ev[0] == 'finish' and ev[1] == o0 and ev[2] == 0 for ev in b.events)
                 for o in (g.eff_outs(e) if e else []):
-                    if not ok_again and b.log.get(o) != prev_b.log.get(o): bad.append('build log entry of %s changed by a FAILED command' % o)
-                    if not ok_again and b.deps.get(o) != prev_b.deps.get(o): bad.append('deps log entry of %s changed by a FAILED command' % o)
+                    if not ok_again and b.log.get(o) != b.pre_log.get(o): bad.append('build log entry of %s changed by a FAILED command' % o)
+                    if not ok_again and b.deps.get(o) != b.pre_deps.get(o): bad.append('deps log entry of %s changed by a FAILED command' % o)
     # every started command is reaped
     st_set = collections.Counter(b.started); fin_set = collections.Counter(o for o, c in b.finished)
     if b.exit != 130 and st_set != fin_set: bad.append('started %s but finished %s' % (dict(st_set), dict(fin_set)))
